@@ -203,7 +203,8 @@ class Fold:
         if key not in ctx.fold_instances:
             ctx.fold_instances.add(key)
             from .contract import ObjView
-            km1 = z3.simplify(k - 1)
+            from .values import simp as _simp
+            km1 = _simp(k - 1)
             prev = app(km1)
             el = seq[km1]
             hv = dict(zip(self.heap_fields, harrs))
